@@ -10,6 +10,10 @@ NOTE = ("Trusted: Coq 8.16.1 kernel; the hand-written Gallina model (tied to /re
         "No axioms: Print Assumptions of every property theorem is recorded in the evidence.")
 
 CLAIMED = {
+ "C11": ("Stream theorem not yet proved (partial; Props/C11.v holds only totality). Decided on every run by: streams of 1..8 self-contained pickles (mixed protocols, hand-assembled programs leaving operands / marks / protocol number / buffer contents behind, pickles failing at their last byte, all ordered pairs of those) x 4 configs, each call compared with the same pickle decoded alone and with the decoder model threaded through the stream; earlier results re-dumped after the last call.",
+         "executable decoder model threaded through streams + metamorphic comparison with stand-alone decoding (theorem pending)", "5 (C11)"),
+ "C16": ("Typing invariant not yet proved (partial; Props/C16.v holds only totality). Decided on every run by walking every successful result and every Ref handed to PersistentLoad against the mode's type whitelist, over the C04 stream + MARK under every consuming opcode in every operand position + exhaustive opcode x small-stack sweep, x 4 configs x 4 PersistentLoad behaviours; full observations compared with the decoder model.",
+         "executable decoder model + type-whitelist walk of implementation results (theorem pending)", "5 (C16)"),
  "C03": ("Round-trip theorem over all values: NOT yet proved (Props/C03.v holds only the encoder-outcome theorem and computed examples at all six protocols) - partial. The property is decided on every run by: encoder model = implementation on the bytes (order of dict entries normalised with pickletools), decoder model = implementation on those bytes, and the direct oracle Decode(Encode(v)) = documented normal form computed independently in Python, over canonical values and their non-canonical relatives x 6 protocols x StrictUnicode x PyDict, plus a before/after dump for 'Encode never modifies its argument'.",
          "executable Coq models of encoder and decoder tied to the code by differential runs + independent normal-form oracle (theorem pending)", "5 (C03)"),
  "C12": ("Theorems (Props/C12.v): a protocol outside 0..5 is rejected before any Write, for every value and Writer; a successful output is [PROTO p iff p>=2] body STOP. That body uses only opcodes of protocol <= p with a balanced stack is NOT yet a theorem (partial): it is decided on every run by scanning implementation and model output with CPython's pickletools (independent opcode table: introducing protocol, argument layout, stack effect; dis) for the gate matrix + random values x protocols -1..7 x StrictUnicode, and by loading protocol<=2 output under Python 2.7.",
